@@ -8,9 +8,8 @@
 //!                   input, mapped to lines, merged; inversion = the other lines; context by the grep model)
 //!   model vs spec : under the guard of the theorems
 //! plus reader / path strategies vs the slice strategy.
-//! Known-finding classes: `ml-invert-resumes-at-line-end` (inversion is not the complement when a match starts
-//! inside the last line of the previous match), `ml-empty-final-match-before-context` (an empty match after the
-//! last terminator is dropped, but its before-context lines are delivered).
+//! Known-finding class: `ml-invert-resumes-at-line-end` (inversion is not the complement when a match starts
+//! inside the last line of the previous match).
 #[path = "../searcher_common.rs"]
 mod searcher_common;
 
@@ -151,6 +150,8 @@ struct Ctx {
     rep: Report,
     scratch: PathBuf,
     files: u64,
+    /// one Searcher per configuration, reused for every case and strategy (history across searches)
+    searchers: std::collections::HashMap<String, grep_searcher::Searcher>,
 }
 
 fn check<M: Matcher>(line: &str, c: &C13, m: &M, msx: &str, head: &str, ctx: &mut Ctx) {
@@ -158,7 +159,8 @@ fn check<M: Matcher>(line: &str, c: &C13, m: &M, msx: &str, head: &str, ctx: &mu
     let csx = cfg.to_sx();
     let inp = hex(&c.input);
     let path = ctx.drv.ask(&format!("c13.path {} {}", csx, head));
-    let mut s = cfg.searcher();
+    let key = cfg.token();
+    let mut s = ctx.searchers.remove(&key).unwrap_or_else(|| cfg.searcher());
     let imp = run_with(&mut s, m, &c.input, Script::All, &Strategy::Slice).0;
     let model = ctx.drv.ask(&format!("c13.model {} {} {} (sink all)", csx, msx, inp));
     ctx.rep.branch(&format!("path:{}", path));
@@ -177,7 +179,7 @@ fn check<M: Matcher>(line: &str, c: &C13, m: &M, msx: &str, head: &str, ctx: &mu
     let f = scratch_file(&ctx.scratch, &format!("c13-{}.txt", ctx.files % 64), &c.input);
     strategies.push(Strategy::Path(f));
     for st in &strategies {
-        let other = run_impl(&cfg, m, &c.input, Script::All, st, false);
+        let other = run_with(&mut s, m, &c.input, Script::All, st).0;
         if other != imp {
             ctx.rep.violation(Violation {
                 kind: "impl_vs_spec".into(),
@@ -188,6 +190,7 @@ fn check<M: Matcher>(line: &str, c: &C13, m: &M, msx: &str, head: &str, ctx: &mu
             });
         }
     }
+    ctx.searchers.insert(key, s);
     if path != "multi" {
         ctx.rep.branch("downgraded-to-line-by-line");
         return;
@@ -246,8 +249,6 @@ fn check<M: Matcher>(line: &str, c: &C13, m: &M, msx: &str, head: &str, ctx: &mu
     }
     let class = if cfg.inv && guard == "0" {
         "ml-invert-resumes-at-line-end"
-    } else if final_empty && cfg.b > 0 && !cfg.pt && !cfg.inv {
-        "ml-empty-final-match-before-context"
     } else {
         ""
     };
@@ -323,7 +324,7 @@ fn main() {
          two matches and a delivered block that spans several lines. Cases whose pattern cannot match the terminator are downgraded \
          by the searcher to line-by-line search and only compared with the model.",
     );
-    let mut ctx = Ctx { drv, rep, scratch: args.scratch.clone(), files: 0 };
+    let mut ctx = Ctx { drv, rep, scratch: args.scratch.clone(), files: 0, searchers: Default::default() };
     for c in corpus_cases(&args) {
         run_case(&c, &mut ctx);
     }
